@@ -100,6 +100,10 @@ class Prop:
     budget_s = {"quick": 60, "thorough": 900}
     nshards = {"quick": 16, "thorough": 16}
 
+    def worker_pyflags(self, shard: int) -> List[str]:
+        """Extra interpreter flags for the worker of this shard (e.g. ['-O'])."""
+        return []
+
     def selftest(self) -> None:
         """Oracle self-test. Raise to make the run inconclusive (exit 2)."""
 
